@@ -235,12 +235,21 @@ def explore(ctx, scale=1.0):
                     ctx.count("variant:hidden keys")
                 except Exception:
                     ctx.count("variant:hidden keys: text unparseable (C19 territory)")
-            if rng.random() < .2:
-                other = copy.deepcopy(d0)
-                m1 = V.validate(copy.deepcopy(other), schema_name=root)
-                both = V.validate([copy.deepcopy(d), copy.deepcopy(other)], schema_name=root)
-                if [m["message"] for m in both] != [m["message"] for m in msgs] + [m["message"] for m in m1]:
-                    ctx.violation("list-not-concat", "validate of a list differs from validating its members one by one", rep)
+            if rng.random() < .5:
+                # a list of roots is judged root by root, whatever the neighbours look like: the unfaulted copy of the same document, and a
+                # bare root of the same type (none of the first root's paths exist in it), before and after the faulted one
+                from mappyfile.ordereddict import CaseInsensitiveOrderedDict
+                bare = CaseInsensitiveOrderedDict(); bare["__type__"] = root
+                for other, first in ((copy.deepcopy(d0), True), (bare, True), (bare, False)):
+                    try:
+                        m1 = V.validate(copy.deepcopy(other), schema_name=root)
+                        pair = [copy.deepcopy(d), copy.deepcopy(other)] if first else [copy.deepcopy(other), copy.deepcopy(d)]
+                        both = V.validate(pair, schema_name=root)
+                    except Exception as ex:
+                        ctx.violation(f"validate-raises:{type(ex).__name__}", f"validate raises {type(ex).__name__} on a list of two roots", rep); break
+                    want = [m["message"] for m in msgs] + [m["message"] for m in m1] if first else [m["message"] for m in m1] + [m["message"] for m in msgs]
+                    if [m["message"] for m in both] != want:
+                        ctx.violation("list-not-concat", "validate of a list differs from validating its members one by one", rep); break
                 ctx.count("variant:list of roots")
             # ---- correspondences ----
             if "Infinity" in json.dumps(low):
